@@ -342,7 +342,7 @@ int main(int argc, char** argv) {
     if (pid == 0) {
       setvbuf(stdout, NULL, _IOLBF, 0);
       for (long it = a; it < b; it++) { Rng r((seed * 15485863ULL + 13) ^ ((uint64_t)it * 0x9e3779b97f4a7c15ULL)); iteration(wl, r, npts); }
-      fflush(stdout); _exit(0);
+      fflush(stdout); VH_EXIT(0);
     }
     int st = 0; waitpid(pid, &st, 0);
     return WIFSIGNALED(st) ? WTERMSIG(st) : 0;
@@ -355,14 +355,14 @@ int main(int argc, char** argv) {
     int sig = 0;
     if (!nofork) {
       pid_t pid = fork();
-      if (pid == 0) { if (!freopen("/dev/null", "w", stdout)) _exit(3); for (long it = a; it < b; it++) { Rng r((seed * 15485863ULL + 13) ^ ((uint64_t)it * 0x9e3779b97f4a7c15ULL)); iteration(wl, r, npts); } _exit(0); }
+      if (pid == 0) { if (!freopen("/dev/null", "w", stdout)) _exit(3); for (long it = a; it < b; it++) { Rng r((seed * 15485863ULL + 13) ^ ((uint64_t)it * 0x9e3779b97f4a7c15ULL)); iteration(wl, r, npts); } VH_EXIT(0); }
       int st = 0; waitpid(pid, &st, 0); sig = WIFSIGNALED(st) ? WTERMSIG(st) : 0;
     }
     if (!sig) { run_range(a, b); continue; }
     for (long it = a; it < b; it++) { // find the crashing iteration(s); only the others are emitted
       fflush(stdout);
       pid_t pid = fork();
-      if (pid == 0) { if (!freopen("/dev/null", "w", stdout)) _exit(3); Rng r((seed * 15485863ULL + 13) ^ ((uint64_t)it * 0x9e3779b97f4a7c15ULL)); iteration(wl, r, npts); _exit(0); }
+      if (pid == 0) { if (!freopen("/dev/null", "w", stdout)) _exit(3); Rng r((seed * 15485863ULL + 13) ^ ((uint64_t)it * 0x9e3779b97f4a7c15ULL)); iteration(wl, r, npts); VH_EXIT(0); }
       int st = 0; waitpid(pid, &st, 0);
       if (WIFSIGNALED(st)) printf("syserror crash-signal-%d %s seed=%llu iteration=%ld (replay: VERIF_NOFORK=1 h_sys %s %llu %ld) => 0\n", WTERMSIG(st), wl.c_str(), (unsigned long long)(wl == "c13merge" ? seed - 7777 : seed), it, wl.c_str(), (unsigned long long)(wl == "c13merge" ? seed - 7777 : seed), it + 1);
       else run_range(it, it + 1);
